@@ -18,6 +18,9 @@ import XV.Driver.Facet
 import XV.Driver.Ser
 import XV.Driver.Formatter
 import XV.Driver.Safety
+import XV.Driver.Particle
+import XV.Driver.XsdValid
+import XV.Driver.Reader
 open XV.Driver
 
 def main (args : List String) : IO UInt32 := do
@@ -56,5 +59,9 @@ def main (args : List String) : IO UInt32 := do
   | ["ser"] => lineLoop stdin stdout XV.Driver.Ser.handle; return 0
   | ["fmt"] => lineLoop stdin stdout XV.Driver.Formatter.handle; return 0
   | ["safety"] => lineLoop stdin stdout XV.Driver.Safety.handle; return 0
+  | ["xsdcm"] => lineLoop stdin stdout XV.Driver.Particle.handle; return 0
+  | ["xsdcmspec"] => lineLoop stdin stdout XV.Driver.Particle.handleSpec; return 0
+  | ["xsd"] => lineLoopS stdin stdout (none : Option XV.Spec.XsdValid.Schema) XV.Driver.XsdValid.handle; return 0
+  | ["reader"] => lineLoop stdin stdout XV.Driver.Reader.handle; return 0
   | ["utf8spec"] => lineLoop stdin stdout XV.Driver.Utf8.handleSpec; return 0
   | _ => IO.eprintln "usage: xvdriver <area>"; return 2
